@@ -95,6 +95,8 @@ func (c *C03) Ops(s *HState) []engine.Op {
 		}
 	}
 	if c.Leave {
+		// validator A registers new delegate keys (a new orchestrator account and external key) - it stays the same validator
+		ops = append(ops, engine.OpN("Rekey", 0))
 		// validator A (index 0) leaves for good / is created again by the same operator
 		if !s.Snap.Staking[0].Removed {
 			ops = append(ops, engine.OpN("Leave", 0))
@@ -108,6 +110,12 @@ func (c *C03) Ops(s *HState) []engine.Op {
 func (c *C03) Do(in *hub.Instance, gg Ghost, op engine.Op, st *engine.Step) {
 	g := gg.(*c03Ghost)
 	switch op.Kind {
+	case "Rekey":
+		v := c.Vals[op.I[0]]
+		seq, _ := in.Acc.GetSequence(in.Ctx(), v.Acc)
+		n := in.TxCount
+		r := in.DeliverMsg(hub.DelegateKeysMsg(in.Cdc, v, c.Chain, hub.User(fmt.Sprintf("c03orch%d", n)), hub.EthKey(fmt.Sprintf("c03key%d", n)), seq))
+		st.Obs = fmt.Sprint("rekey", r.OK())
 	case "Leave":
 		in.ValLeave(int(op.I[0]))
 		st.Obs = "left"
